@@ -34,6 +34,12 @@ struct Chunk {
 	std::vector<Tok> toks;
 	std::string inc;     // for an include("...") item: the path of the file in the simulated tree it resolves to
 	bool faulty = false; // the item carries an injected fault (failing include target, wrong token ...)
+	// include statements inside the item (section bodies moved to files): byte range in t and the file's path
+	struct Inc {
+		size_t s, e;
+		std::string path;
+	};
+	std::vector<Inc> incs;
 	json to_json() const;
 };
 
